@@ -56,3 +56,8 @@ ENTRIES += [
       "            self._state = PipelineState.stopping\n            self._unpaused_event.set()\n            self._producer.stop()\n            self._kill_workers()\n"),
     N('start-event-guard-gt', "            if self._concurrency:\n                self._unpaused_event.set()\n", "            if self._concurrency > 0:\n                self._unpaused_event.set()\n"),
 ]
+
+ENTRIES += [
+    B('producer-stale-unfinished-count', "            item = yield from self.process_one()\n\n            if not item and self._item_queue.unfinished_items == 0:", "            unfinished_items = self._item_queue.unfinished_items\n            item = yield from self.process_one()\n\n            if not item and unfinished_items == 0:", 'C13-D2'),
+    N('producer-fresh-unfinished-local', "            item = yield from self.process_one()\n\n            if not item and self._item_queue.unfinished_items == 0:", "            item = yield from self.process_one()\n            unfinished_items = self._item_queue.unfinished_items\n\n            if not item and unfinished_items == 0:"),
+]
